@@ -20,6 +20,25 @@ pub fn dflt_val<T: Model>(seed: u64) -> Val {
     gen_val(&T::ty(), &mut Rng::new(seed ^ 0x5eed_d0d0), &ctx)
 }
 
+/// `n` zero bytes that cost address space only (zero pages, never written), or None when the system will not hand
+/// out that much right now: a failed `vec![0; n]` would abort the worker, and lack of memory on the test machine is
+/// no verdict about the library
+pub fn zeroed(n: usize) -> Option<Vec<u8>> {
+    if n == 0 {
+        return Some(Vec::new());
+    }
+    let layout = std::alloc::Layout::array::<u8>(n).ok()?;
+    // SAFETY: the layout has a non-zero size; a non-null result is n zero-initialised bytes owned by nobody else
+    unsafe {
+        let p = std::alloc::alloc_zeroed(layout);
+        if p.is_null() {
+            None
+        } else {
+            Some(Vec::from_raw_parts(p, n, n))
+        }
+    }
+}
+
 /// every time-zone name chrono-tz knows (built once)
 pub fn tz_names() -> std::sync::Arc<Vec<String>> {
     static NAMES: std::sync::OnceLock<std::sync::Arc<Vec<String>>> = std::sync::OnceLock::new();
